@@ -1,3 +1,4 @@
+import AlatorVerif.Lemmas.HttpLoop
 import AlatorVerif.Lemmas.SrvClock
 import AlatorVerif.Model.PenDs
 /-!
@@ -60,6 +61,34 @@ theorem loop_performs_exactly_N_ticks (adm : App E Q → A) (i : Nat) (fuel : Na
     (hc : ClockOK ds bt) (hN : 0 < ds.dates.length) (hf : ds.dates.length - bt.pos ≤ fuel) :
     loopTicks X adm i fuel a = ds.dates.length - bt.pos :=
   loop_terminates X adm i fuel a bt ds hb hd hc hN hf
+
+section
+open PHt
+/-- **the client that follows the tick's own `has_next`** (the property's wording, and what the repository's
+    clients do): tick, continue while the tick's response says `has_next`. From a live backtest with `pos < N` it
+    performs exactly `N - pos` ticks — exactly `N` from a new one — and stops, whatever the exchange does -/
+theorem tick_driven_client_performs_exactly_N_ticks (adm : App E Q → A) (i : Nat) (fuel : Nat) (a : App E Q)
+    (bt : Backtest E) (ds : Dataset Q) (hb : a.backtests i = some bt) (hd : a.datasets bt.dataset = some ds)
+    (hc : ClockOK ds bt) (hlt : bt.pos < ds.dates.length) (hf : ds.dates.length - bt.pos ≤ fuel) :
+    tickLoop X adm i fuel a = ds.dates.length - bt.pos :=
+  tickLoop_terminates X adm i fuel a bt ds hb hd hc hlt hf
+
+/-- **the same two clients over the JSON service**: deciding on the `has_next` they *decode* from the `now` /
+    `tick` responses, with the server moving through the handler's states, they perform exactly the same number
+    of ticks, `N - pos` (the `now`-driven one on services that have the route) -/
+theorem json_clients_perform_exactly_N_ticks {α : Type} (enc : Enc Q R α) (adm : App E Q → A)
+    (syms : String → List String) (i : Nat) (fuel : Nat) (a : App E Q)
+    (bt : Backtest E) (ds : Dataset Q) (hb : a.backtests i = some bt) (hd : a.datasets bt.dataset = some ds)
+    (hc : ClockOK ds bt) (hf : ds.dates.length - bt.pos ≤ fuel) :
+    (bt.pos < ds.dates.length →
+      httpTickLoop (O := O) (D := D) X enc adm syms i fuel a = ds.dates.length - bt.pos) ∧
+    (enc.hasNow = true → 0 < ds.dates.length →
+      httpLoopTicks (O := O) (D := D) X enc adm syms i fuel a = ds.dates.length - bt.pos) :=
+  ⟨fun hlt => (httpTickLoop_eq_tickLoop X enc adm syms i fuel a).trans
+      (tickLoop_terminates X adm i fuel a bt ds hb hd hc hlt hf),
+   fun hn hN => (httpLoop_eq_loop X enc adm syms i hn fuel a).trans
+      (loop_terminates X adm i fuel a bt ds hb hd hc hN hf)⟩
+end
 
 /-! ### the dataset itself: `Penelope` (`rotala/src/input/penelope.rs`), built by `add_quote` calls
 
